@@ -159,6 +159,29 @@ def batch_events(args):
                               "parts": [quant.q12(p, s2) for p in parts], "fin": bool(np.isfinite(wc).all())}
                         f.write(json.dumps(ev, separators=(",", ":")) + "\n")
                         n += 1
+            elif st["kind"] == "homog":
+                i = st["arr"][0]
+                dec = st["lin"][0]
+                src = pal[i].copy()
+                rr = rng(f"hom{i}")
+                e1 = np.array([rr.uniform(0.2, 1) * rr.choice((-1, 1)) for _ in range(3)])
+                k = float(f"1e{dec}")
+                for field in ("B", "H"):
+                    fn = getattr(magpy, "get" + field)
+                    obs = []
+                    for e in (e1, k * e1):
+                        if hasattr(src, "polarization"):
+                            src.polarization = e
+                        elif hasattr(src, "current"):
+                            src.current = float(e[0])
+                        else:
+                            src.moment = e
+                        obs.append(np.asarray(fn(src, sens[0], squeeze=False), dtype=float).reshape(-1, 3))
+                    s = quant.gross(obs[0])
+                    ev = {"tid": tid0 + n, "kind": "homog", "what": f"{type(src).__name__} x 1e{dec}", "cls": type(src).__name__, "field": field, "dec": dec,
+                          "obs": quant.q12(obs[0], s), "obsd": quant.q12(obs[1], s * k), "fin": bool(all(np.isfinite(o).all() for o in obs))}
+                    f.write(json.dumps(ev, separators=(",", ":")) + "\n")
+                    n += 1
             else:
                 i = st["arr"][0]
                 a, b = st["lin"]
